@@ -21,6 +21,12 @@ structure OccSess where
   chargeGiven : Bool
   st : State
 
+/-- re-tabulate the occupant map over the cells `0 … n-1` (the only ones the harness uses), so that the
+closure built by successive `setAt`s does not grow with the length of the session -/
+private def flatten (n : Nat) (s : State) : State :=
+  let arr := ((List.range n).map s.occupants).toArray
+  { s with occupants := fun c => arr.getD c [] }
+
 private def ids (l : List Nat) : String := ",".intercalate (l.map toString)
 
 private def dump (z : OccSess) : String :=
@@ -50,7 +56,7 @@ def occComp : Comp where
         (z', dump z')
     | ["update", i, q, c] =>
         match update z.st ⟨nat! i, isRelevant Ops.float z.chargeGiven (fl q), nat! c⟩ with
-        | .ok st => let z' := { z with st := st }; (z', dump z')
+        | .ok st => let z' := { z with st := flatten z.n st }; (z', dump z')
         | .error e => (z, e.token)
     | ["poke", c] =>
         -- white box: plant an empty surplus list (unreachable through the public interface)
